@@ -1,4 +1,5 @@
 import numpy as np
+import pandas as pd
 
 from PEPit.function import Function
 from PEPit.block_partition import BlockPartition
@@ -87,9 +88,8 @@ class BlockSmoothConvexFunction(Function):
         if function_id is None:
             function_id = "Function_{}".format(self.counter)
 
-        # Set tables_of_constraints attributes
-        for k in range(self.partition.get_nb_blocks()):
-            self.tables_of_constraints["smoothness_convexity_block_{}".format(k)] = [[]]*len(self.list_of_points)
+        # Initialize one table of constraints per block (one distinct row per point)
+        tables_of_constraints = [[list() for _ in self.list_of_points] for _ in range(self.partition.get_nb_blocks())]
 
         # Browse list of points and create interpolation constraints
         for i, point_i in enumerate(self.list_of_points):
@@ -108,7 +108,7 @@ class BlockSmoothConvexFunction(Function):
 
                 if point_i == point_j:
                     for k in range(self.partition.get_nb_blocks()):
-                        self.tables_of_constraints["smoothness_convexity_block_{}".format(k)][i].append(0)
+                        tables_of_constraints[k][i].append(0)
 
                 else:
 
@@ -122,5 +122,14 @@ class BlockSmoothConvexFunction(Function):
                         constraint = (fi - fj >= gj * (xi - xj) + 1 / (2 * self.L[k]) * (gik - gjk) ** 2)
                         constraint.set_name("IC_{}_smoothness_convexity_block_{}({}, {})".format(function_id, k,
                                                                                                  xi_id, xj_id))
-                        self.tables_of_constraints["smoothness_convexity_block_{}".format(k)][i].append(constraint)
+                        tables_of_constraints[k][i].append(constraint)
                         self.list_of_class_constraints.append(constraint)
+
+        # Complete the tables of constraints and add them to the attribute tables_of_constraints
+        point_names = [point[0].name or "Point_{}".format(point_index) for point_index, point in
+                       enumerate(self.list_of_points)]
+        if len(self.list_of_points) > 0:
+            for k in range(self.partition.get_nb_blocks()):
+                df = pd.DataFrame(np.array(tables_of_constraints[k]), columns=point_names, index=point_names)
+                df.columns.name = "IC_{}".format(function_id)
+                self.tables_of_constraints["smoothness_convexity_block_{}".format(k)] = df
